@@ -64,6 +64,13 @@ def k50(args):
         elif t == 8:
             model.add_data({objs[op[1]]: data_dict(op[2])})
             res.append([dump()])
+        elif t == 16:
+            import io, contextlib
+            with contextlib.redirect_stdout(io.StringIO()):
+                model.print()
+            for o in objs:
+                o.state(); o.is_contradiction(); o.get_data()
+            res.append([dump()])
         elif t == 7:
             model.reset_bounds()
             res.append([dump()])
